@@ -1322,14 +1322,29 @@ def run_schedule(item):
             g4, st4 = s.read_until(lambda l: l == "readyok", 3.0)
             obs["usable"] = st4 == "match"
             if go_again and st4 == "match":
-                s.send("go depth 1")
-                g5, st5 = wait_bestmove(s, 8.0)
+                # "subsequent commands are served normally": the following searches are complete searches (a request
+                # left over from the schedule must not end them early) - their analysis is compared with a fresh process
+                s.send("go depth 3")
+                g5, st5 = wait_bestmove(s, 30.0)
                 obs["go_again"] = st5 == "match"
                 if st5 == "match":
+                    obs["go_again_analysis"] = analysis_of(g5)
                     s.send("stop")   # a GUI may always send a late stop
                     s.send("isready")
                     g6, st6 = s.read_until(lambda l: l == "readyok", 3.0)
                     obs["late_stop_ok"] = st6 == "match"
+                    if st6 == "match":
+                        s.send("go depth 3")
+                        g7, st7 = wait_bestmove(s, 30.0)
+                        obs["go_third_analysis"] = analysis_of(g7) if st7 == "match" else None
+                        # and an infinite search started now runs until it is told to stop
+                        s.send("go infinite")
+                        g8, st8 = wait_bestmove(s, 0.4)
+                        obs["infinite_ended_by_itself"] = st8 == "match"
+                        if st8 != "match":
+                            s.send("stop")
+                            g9, st9 = wait_bestmove(s, 10.0)
+                            obs["infinite_stopped"] = st9 == "match"
         else:
             obs["usable"] = False
         obs["alive"] = s.alive()
@@ -1434,6 +1449,32 @@ def check_C12(ctx):
                 items.append((ctx.rng.choice(fens), ph, cn, os.path.join(BUILD, f"sctl_{os.getpid()}_{k}"), True))
     results = parallel_map(run_schedule, items, workers=min(8, infra.NCPU))
     ctx.co["co_schedule"] = len(items)
+    # reference: the same follow-up search in a fresh process; positions whose infinite search ends by itself
+    fresh, self_ending = {}, set()
+    for f in fens:
+        s0 = Session()
+        try:
+            a, st = probe(s0, f, 3)
+            fresh[f] = a
+            s0.send("go infinite")
+            g, st = wait_bestmove(s0, 0.6)
+            if st == "match":
+                self_ending.add(f)
+            else:
+                s0.send("stop")
+                wait_bestmove(s0, 10.0)
+        finally:
+            s0.kill()
+
+    def _jl(v):
+        return list(v) if isinstance(v, tuple) else v
+
+    def summ(a):
+        if not a:
+            return "no analysis"
+        ds = [x[1] for x in a if x[0] == "depth"]
+        bm = [x[1] for x in a if x[0] == "bestmove"]
+        return f"completed depths {ds}, bestmove {bm[-1] if bm else None}"
     for (fen, ph, cn, ctl, ga), res in zip(items, results):
         if not isinstance(res, tuple) or not isinstance(res[0], dict):
             raise RuntimeError(f"schedule error {res}")
@@ -1442,6 +1483,7 @@ def check_C12(ctx):
         ctx.bump("phase:" + ph.split(":")[0])
         key = f"sched:{ph}:{cn}"
         lines = [f"position {fen}", "go infinite" if not ph.startswith(("prebest", "postbest")) else "go depth 2", f"<hold search at {ph}>"] + SCHED_CMDS[cn] + ["isready", "<release>"]
+        lines += ["<wait for bestmove>", "isready", "go depth 3", "<wait for bestmove>", "stop", "isready", "go depth 3", "<wait for bestmove>", "go infinite", "<sleep 0.4s>", "stop", "<wait for bestmove>"]
         if not obs.get("held"):
             ctx.bump("phase_not_reached")
             continue
@@ -1464,6 +1506,14 @@ def check_C12(ctx):
             problems.append("a following go did not produce a bestmove")
         if obs.get("late_stop_ok") is False:
             problems.append("a stop after the following search finished wedged the engine")
+        want = fresh.get(fen)
+        for nm, what in (("go_again_analysis", "the `go depth 3` following the schedule"), ("go_third_analysis", "the `go depth 3` after a late `stop` (sent when that search had already finished)")):
+            if nm in obs and want is not None and [list(map(_jl, x)) for x in (obs[nm] or [])] != [list(map(_jl, x)) for x in want]:
+                problems.append(f"{what} was not served normally: its analysis differs from the same search in a fresh process ({summ(obs[nm])} vs {summ(want)})")
+        if obs.get("infinite_ended_by_itself") and fen not in self_ending:
+            problems.append("a `go infinite` sent after the schedule printed bestmove although no stop was sent for it")
+        if obs.get("infinite_stopped") is False:
+            problems.append("the `go infinite` sent after the schedule did not end on stop")
         if problems:
             ctx.violation(key, {"kind": "schedule", "lines": lines, "what": "; ".join(problems), "observed": obs, "fen": fen})
         if len(ctx.samples) < 4:
@@ -2203,6 +2253,10 @@ UNREPRESENTABLE = [
     ("nine pawns in a rank string", "ppppppppp/8/8/8/8/8/8/8 w - - 0 1"),
     ("sixteen white pieces", "4k3/8/8/8/8/QQQQQQQQ/QQQQQQQQ/4K3 w - - 0 1"),
     ("sixteen black pieces", "4k3/qqqqqqqq/qqqqqqqq/8/8/8/8/4K3 b - - 0 1"),
+    ("fifteen white officers and a pawn (no room for the promotion)", "7k/P7/8/8/8/8/NNNNNNNN/RNBQKBNR w KQ - 0 1"),
+    ("fifteen black officers and a pawn (no room for the promotion)", "rnbqkbnr/nnnnnnnn/8/8/8/8/p7/7K b kq - 0 1"),
+    ("thirteen white officers and three pawns", "7k/PPP5/8/8/8/8/2NNNNNN/RNBQKBNR w KQ - 0 1"),
+    ("eight pawns and eight officers", "7k/8/8/8/8/7N/PPPPPPPP/RNBQKBNR w KQ - 0 1"),
     ("white pawn on rank 8", "P3k3/8/8/8/8/8/8/4K3 w - - 0 1"),
     ("white pawn on rank 1", "4k3/8/8/8/8/8/8/P3K3 w - - 0 1"),
     ("black pawn on rank 1", "4k3/8/8/8/8/8/8/p3K3 b - - 0 1"),
@@ -2219,6 +2273,90 @@ UNREPRESENTABLE = [
     ("rank overflow by digits", "4k3/8/8/8/8/8/8/8K w - - 0 1"),
     ("seven files", "4k3/8/8/8/8/8/8/4K2 w - - 0 1"),
 ]
+
+
+LENIENT_REPRESENTATIVES = [
+    # one fixed representative per recorded relaxation of the loader (known_findings.json, C08 "lenient fields")
+    b"rnbqkbnr/pppppppp/8/8/8/8/PPPPPPPP/RNBQKBNR w ABC - 0 1",
+    b"rnbqkbnr/pppppppp/8/8/8/8/PPPPPPPP/RNBQKBNR w KQkq x 0 1",
+    b"rnbqkbnr/pppppppp/8/8/8/8/PPPPPPPP/RNBQKBNR w KQkq - zz 1",
+    b"rnbqkbnr/pppppppp/8/8/8/8/PPPPPPPP/RNBQKBNR w KQkq - 0 +1",
+    b"rnbqkbnr/pppppppp/44/8/8/8/PPPPPPPP/RNBQKBNR w KQkq - 0 1",
+]
+
+
+def fen_byte_families(rng, bases, quick):
+    """systematic near-valid strings: every single-byte substitution (all 256 values) at every position of a few
+    base FENs, and every two-byte en passant field over 7-bit bytes on bases with and without a pushed pawn"""
+    out = []
+    subs = bases[: (4 if quick else 80)]
+    for b in subs:
+        bb = b.encode()
+        for i in range(len(bb)):
+            for v in range(256):
+                if v in (9, 10) or v == bb[i]:
+                    continue
+                out.append(bb[:i] + bytes([v]) + bb[i + 1:])
+    ep_bases = [b for b in bases if b.split()[3] != "-"][: (2 if quick else 8)]
+    ep_bases += ["rnbqkbnr/pppppppp/8/8/4P3/8/PPPP1PPP/RNBQKBNR b KQkq e3 0 1", "rnbqkbnr/ppp1pppp/8/3p4/4P3/8/PPPP1PPP/RNBQKBNR w KQkq d6 0 2"]
+    for b in ep_bases:
+        parts = b.split(" ")
+        for x in range(128):
+            for y in range(128):
+                if x in (9, 10, 32) or y in (9, 10, 32):
+                    continue
+                out.append(" ".join(parts[:3]).encode() + b" " + bytes([x, y]) + b" " + " ".join(parts[4:]).encode())
+    return out
+
+
+def fen_decision_check(ctx, strings, go=None):
+    """C08 as a decision on arbitrary strings: accepted <=> standard FEN syntax, legal position (Lean specification),
+    move number 1..maxFullMoveCounter; accepted strings carry their meaning. The acceptance of the recorded lenient
+    forms is reported as KNOWN-FINDING (matched by relaxation class = call site), anything else as a violation
+    with the string as the failing input."""
+    import fenoracle
+    maxn = int(ctx.prep["facts"]["consts"]["maxFullMoveCounter"]["value"])
+    ops = [f"fen\t{b.hex()}" for b in strings]
+    if go is None:
+        go = run_batch(HDRV, ops)
+    rel = [fenoracle.relaxed(b) for b in strings]
+    texts = sorted({fenoracle.canon_text(r[0], r[1]) for r in rel if r and 1 <= r[1] <= maxn})
+    legal = dict(zip(texts, run_batch(MDRV, [f"slegal\t{t}" for t in texts])))
+    lenient_texts = sorted({fenoracle.canon_text(r[0], r[1]) for r in rel if r and r[2] and 1 <= r[1] <= maxn})
+    canon_go = dict(zip(lenient_texts, run_batch(HDRV, [f"fen\t{hexs(t)}" for t in lenient_texts])))
+    ctx.co["co_fen_decision"] = ctx.co.get("co_fen_decision", 0) + len(strings)
+    ctx.evaluations += len(strings)
+    for b, g, r in zip(strings, go, rel):
+        acc = (g or "").startswith("ok")
+        if not acc and g != "fenerr":
+            continue      # crash: reported by the caller
+        std = fenoracle.standard(b)
+        t = fenoracle.canon_text(r[0], r[1]) if r and 1 <= r[1] <= maxn else None
+        is_legal = t is not None and legal.get(t) == "ok 1"
+        want = std is not None and is_legal
+        shown = b.decode("latin-1")
+        if acc and want:
+            d = kv(g)
+            exp = independent_fen_read(t)
+            if (d.get("B"), d.get("f"), d.get("ep"), d.get("ply")) != exp:
+                ctx.violation("fen-meaning:" + b.hex(), {"kind": "input", "lines": ["position " + shown, "tostr"], "hex": b.hex(), "what": "valid FEN of a legal position not loaded with its meaning", "engine": g[:300], "expected": exp})
+            ctx.bump("decision:accept_ok")
+        elif acc and not want:
+            if r and r[2] and is_legal:
+                same = re.sub(r"^ok ", "", canon_go.get(t) or "") == re.sub(r"^ok ", "", g)
+                if same:
+                    for tag in sorted(r[2]):
+                        ctx.bump("decision:lenient:" + tag)
+                        ctx.violation("fen-lenient:" + tag, {"kind": "input", "lines": ["position " + shown, "tostr"], "hex": b.hex(), "what": f"not a syntactically valid FEN ({tag}) but accepted; " + fenoracle.TAG_SITES[tag]})
+                    continue
+                ctx.violation("fen-lenient-meaning:" + b.hex(), {"kind": "input", "lines": ["position " + shown, "tostr"], "hex": b.hex(), "what": "a string in one of the lenient forms is loaded as a different position than the FEN it is taken to mean", "engine": g[:300], "canonical": t, "canonical_engine": (canon_go.get(t) or "")[:300]})
+                continue
+            why = "not in FEN syntax" if r is None else ("move number outside 1..%d" % maxn if t is None else "not a legal position according to the specification")
+            ctx.violation("fen-accepts:" + b.hex(), {"kind": "input", "lines": ["position " + shown, "tostr"], "hex": b.hex(), "what": f"a string that is not a valid FEN of a legal position ({why}) is accepted instead of being rejected with `invalid FEN`", "engine": g[:300]})
+        elif not acc and want:
+            ctx.violation("fen-rejects:" + b.hex(), {"kind": "input", "lines": ["position " + shown], "hex": b.hex(), "what": "a syntactically valid FEN of a legal position with a move number in range is rejected", "canonical": t})
+        else:
+            ctx.bump("decision:reject_ok")
 
 
 def check_C08(ctx):
@@ -2333,6 +2471,19 @@ def check_C08(ctx):
             co.append((o, mb.decode("latin-1"), g, m))
     for k_, v in cls.items():
         ctx.bump("malformed_" + k_, v)
+    # the decision procedure on the same stream, on the systematic byte families and on the fixed lenient forms
+    fen_decision_check(ctx, muts, go2)
+    fam_strings = fen_byte_families(rng, valid, ctx.quick)
+    fam_go = run_batch(HDRV, [f"fen\t{b.hex()}" for b in fam_strings])
+    fam_model = run_batch(MDRV, [f"fen\t{b.hex()}" for b in fam_strings])
+    ctx.co["co_fen_byte_families"] = len(fam_strings)
+    for b, g, m in zip(fam_strings, fam_go, fam_model):
+        if not (g or "").startswith("ok") and g != "fenerr":
+            ctx.violation("fen-crash:" + b.hex(), {"kind": "input", "lines": ["position " + b.decode("latin-1")], "hex": b.hex(), "what": "FEN loader crashes instead of reporting `invalid FEN`", "engine": (g or "")[:200]})
+        if canon(g) != canon(m):
+            co.append(("fen\t" + b.hex(), b.decode("latin-1"), g, m))
+    fen_decision_check(ctx, fam_strings, fam_go)
+    fen_decision_check(ctx, LENIENT_REPRESENTATIVES + [v.encode() for v in valid[:200]])
     # rejected FEN keeps the current position
     keep_ops = []
     # `position` trims white space and an optional `fen ` keyword before loading: a string the loader rejects only
@@ -2843,6 +2994,18 @@ def check_C17(ctx):
             ctx.violation("uci-crash:" + lb.hex(), {"kind": "history", "lines": ctxlines, "hex": lb.hex(), "what": "input line crashes the engine: " + (r or "")[:160]})
     # (b) fixed boundary scripts and random sessions with searches, against the real binary
     scripts = [[(l, []) for l in sc if l != "<wait>"] for sc in FIXED_SCRIPTS]
+    # a FEN the engine cannot represent followed by the commands that would use it (statement: "a rejected FEN
+    # followed by a move list", "searching ..."): rejected or not, nothing may crash
+    unrep = [f for _, f in UNREPRESENTABLE]
+    for f in (rng.sample(unrep, 12) if ctx.quick else unrep):
+        for follow in (["go depth 4"], ["perft 2"], ["tperft 3"], ["eval", "go movetime 100"]):
+            scripts.append([(f"position fen {f}", [])] + [(l, []) for l in follow])
+    for f, mv in [("7k/P7/8/8/8/8/NNNNNNNN/RNBQKBNR w KQ - 0 1", "a7a8q"), ("rnbqkbnr/nnnnnnnn/8/8/8/8/p7/7K b kq - 0 1", "a2a1q"),
+                  ("7k/PPP5/8/8/8/8/2NNNNNN/RNBQKBNR w KQ - 0 1", "a7a8q h8h7 b7b8q h7h6 c7c8q")]:
+        scripts.append([(f"position fen {f} moves {mv}", []), ("go depth 2", [])])
+    # positions at the edge of the capacities that ARE representable: fourteen officers and a pawn about to promote
+    for f in ("7k/P7/8/8/8/8/1NNNNNNN/RNBQKBNR w KQ - 0 1", "rnbqkbnr/1nnnnnnn/8/8/8/8/p7/7K b kq - 0 1"):
+        scripts.append([(f"position fen {f}", []), ("go depth 3", []), ("perft 2", [])])
     # option changes arriving while a search is running (legal at any time per UCI), incl. out-of-range values
     for v in ("0", "-7", "1", "10000001", "x", "10"):
         scripts.append([("position startpos", []), ("go infinite", [f"setoption name currmoveLogInterval value {v}", "isready"])])
@@ -3041,6 +3204,24 @@ def check_C18(ctx):
 # --------------------------------------------------------------------------------------------------
 # C19: termination
 
+EXIT_STATES = {
+    "after-search-of-mated-root": ["position 7k/6Q1/6K1/8/8/8/8/8 b - - 0 1", "go depth 3", "<bestmove>"],
+    "after-search-of-stalemated-root": ["position 7k/5Q2/6K1/8/8/8/8/8 b - - 0 1", "go", "<bestmove>"],
+    "after-search-of-mate-reached-by-moves": ["position startpos moves f2f3 e7e5 g2g4 d8h4", "go movetime 200", "<bestmove>"],
+    "after-infinite-search-of-mated-root": ["position startpos moves f2f3 e7e5 g2g4 d8h4", "go infinite", "<sleep 0.2>"],
+    "after-stopped-search": ["position " + KIWI_FEN, "go infinite", "<sleep 0.15>", "stop", "<bestmove>"],
+    "after-movetime-search": ["position " + START_FEN, "go movetime 60", "<bestmove>"],
+    "after-single-legal-move-search": ["position 7k/8/8/8/8/8/6q1/7K w - - 0 1", "go depth 6", "<bestmove>"],
+    "after-mate-found-early": ["position 7k/8/8/8/8/8/R7/1R4K1 w - - 0 1", "go depth 6", "<bestmove>"],
+    "after-rejected-go": ["position " + START_FEN, "go depth", "go movestogo 0", "go wtime"],
+    "after-two-searches": ["position " + START_FEN, "go depth 2", "<bestmove>", "position startpos moves e2e4", "go depth 2", "<bestmove>"],
+    "mid-movetime-search": ["position " + KIWI_FEN, "go movetime 8000", "<sleep 0.15>"],
+    "mid-search-after-terminal-search": ["position 7k/5Q2/6K1/8/8/8/8/8 b - - 0 1", "go depth 2", "<bestmove>", "position " + KIWI_FEN, "go infinite", "<sleep 0.15>"],
+    "after-stop-without-search": ["stop", "position " + START_FEN, "stop"],
+    "after-rejected-position": ["position fen 8/8/8/8/8/8/8/8 w - - 0 1", "go depth 2"],
+}
+
+
 def run_exit(item):
     prefix, mode, state = item
     s = Session()
@@ -3055,6 +3236,15 @@ def run_exit(item):
             s.send("position " + START_FEN)
             s.send("go depth 2")
             wait_bestmove(s, 20.0)
+        elif state in EXIT_STATES:
+            # the ways a search can begin and end: every one of them must leave a process that still exits
+            for l in EXIT_STATES[state]:
+                if l == "<bestmove>":
+                    wait_bestmove(s, 20.0)
+                elif l.startswith("<sleep "):
+                    time.sleep(float(l[7:-1]))
+                else:
+                    s.send(l)
         t0 = time.time()
         if mode == "quit":
             s.send("quit")
@@ -3134,6 +3324,10 @@ def check_C19(ctx):
                 if ctx.quick and rng.random() < 0.5:
                     continue
                 items.append((pre, mode, state))
+    for state in EXIT_STATES:
+        for mode in ("quit", "eof"):
+            for pre in (rng.sample(prefixes, 2) if ctx.quick else prefixes):
+                items.append((pre, mode, state))
     results = parallel_map(run_exit, items, workers=6)
     ctx.co["co_exit"] = len(items)
     for (pre, mode, state), r in zip(items, results):
@@ -3144,7 +3338,7 @@ def check_C19(ctx):
         ctx.bump(f"{mode}:{state}")
         if rc is None:
             spin = f"; it keeps using CPU ({cpu:.2f}s per 0.4s: spinning)" if cpu and cpu > 0.2 else ("; blocked" if cpu is not None else "")
-            ctx.violation(f"exit:{mode}:{state}", {"kind": "history", "lines": pre + ([f"<{state}>"] if state != "idle" else []) + (["quit"] if mode == "quit" else ["<close stdin>"]),
+            ctx.violation(f"exit:{mode}:{state}", {"kind": "history", "lines": pre + (EXIT_STATES[state] if state in EXIT_STATES else ([f"<{state}>"] if state != "idle" else [])) + (["quit"] if mode == "quit" else ["<close stdin>"]),
                                                   "what": f"process did not terminate within 2.5 s after {'quit' if mode == 'quit' else 'end of input'} in state {state}{spin}"})
         if len(ctx.samples) < 3:
             ctx.sample({"prefix": pre, "mode": mode, "state": state, "exit_code": rc, "seconds": round(el, 3)})
@@ -3204,7 +3398,7 @@ def replay(ctx, path):
         s = Session(env=env)
         for l in r["lines"]:
             l = str(l)
-            m = re.match(r"^<sleep ([0-9.]+)s?>$", l)
+            m = re.match(r"^<sleep ([0-9.]+) ?s?>$", l)
             if l.startswith("<wait for bestmove>") or l == "<bestmove>":
                 g, st = wait_bestmove(s, 60.0)
                 print("   ...", (g[-1] if g else st))
